@@ -81,15 +81,14 @@ func LargestSet(dimensions []Dimensions, limit Dimensions) ([]uint64, Dimensions
 		}
 	}
 	// remove all unwanted indices from the array.
-	j := 0
-	for i := 0; i < len(outIndices)-j; i++ {
-		if outIndices[i] == uint64(len(dimensions)) {
-			j++
-			i--
+	kept := 0
+	for _, index := range outIndices {
+		if index == uint64(len(dimensions)) {
 			continue
 		}
-		outIndices[i] = outIndices[i+j]
+		outIndices[kept] = index
+		kept++
 	}
-	outIndices = outIndices[:len(outIndices)-j]
+	outIndices = outIndices[:kept]
 	return outIndices, accumulator
 }
